@@ -8,8 +8,17 @@ EXTENDS GlomShape
 
 CONSTANTS NCells
 Tgt == VStr("TGT")
-Scalars == {VInt(1), VStr("s"), TLeaf, SLeaf, VFn("tag")}
+Scalars == {VInt(1), VStr("s"), TLeaf, SLeaf, OLeaf, VFn("tag")}
 Hashable == {VInt(1), VStr("s"), TLeaf, VFn("tag")}
+\* hand-written graphs: container-valued dict keys (tuples / frozensets holding T leaves), and cycles in
+\* which a T leaf with an operation is visited before the back reference
+FamilyFill == {
+  << Cell("dict", << <<VRef(2), VInt(1)>>, <<VStr("a"), VRef(3)>> >>), Cell("tuple", <<TLeaf, VStr("s")>>), Cell("list", <<OLeaf>>) >>,
+  << Cell("dict", << <<VRef(2), VRef(3)>> >>), Cell("frozenset", <<TLeaf>>), Cell("tuple", <<OLeaf, VRef(4)>>), Cell("set", <<VInt(1)>>) >> }
+FamilyArg == FamilyFill \cup {
+  << Cell("list", <<OLeaf, VRef(1)>>) >>,
+  << Cell("dict", << <<VStr("a"), OLeaf>>, <<VStr("b"), VRef(1)>>, <<VStr("c"), VRef(2)>> >>), Cell("list", <<SLeaf, VRef(1), VRef(2)>>) >>,
+  << Cell("list", <<VRef(2), VRef(1)>>), Cell("tuple", <<OLeaf, VRef(1)>>) >> }
 
 VARIABLES heap, pos, pred, phase
 vars == <<heap, pos, pred, phase>>
@@ -36,15 +45,16 @@ Init == phase = 0 /\ heap = <<>> /\ pos = "fill" /\ pred = [cells |-> <<>>, v |-
 Pick ==
   /\ phase = 0 /\ phase' = 1
   /\ pos' \in {"fill", "arg"}
-  /\ \E cls \in [1..NCells -> Classes] : \E its \in [1..NCells -> UNION {ItemSeqs(a, c, pos') : a \in 1..NCells, c \in Classes}] :
-       /\ \A a \in 1..NCells : its[a] \in ItemSeqs(a, cls[a], pos') /\ SetOk(cls[a], its[a])
-       /\ heap' = [a \in 1..NCells |-> MkCell(cls[a], its[a])]
-       /\ BackOk(heap')
+  /\ \/ \E cls \in [1..NCells -> Classes] : \E its \in [1..NCells -> UNION {ItemSeqs(a, c, pos') : a \in 1..NCells, c \in Classes}] :
+          /\ \A a \in 1..NCells : its[a] \in ItemSeqs(a, cls[a], pos') /\ SetOk(cls[a], its[a])
+          /\ heap' = [a \in 1..NCells |-> MkCell(cls[a], its[a])]
+          /\ BackOk(heap')
+     \/ heap' \in (IF pos' = "fill" THEN FamilyFill ELSE FamilyArg)
   /\ LET r == IF pos' = "fill" THEN FillV(heap', VRef(1), Tgt) ELSE ArgV(heap', VRef(1), Tgt, <<>>) IN
        pred' = [cells |-> r.heap, v |-> r.v]
 Next == Pick
 
-ShapeLaw == phase = 1 => SameShape(heap, VRef(1), pred.cells, pred.v, Tgt, pos = "arg", 2 * NCells + 2)
-FreshLaw == phase = 1 => AllFresh(pred.cells, pred.v, NCells, 2 * NCells + 2)
-SpecUntouched == phase = 1 => SubSeq(pred.cells, 1, NCells) = heap
+ShapeLaw == phase = 1 => SameShape(heap, VRef(1), pred.cells, pred.v, Tgt, pos = "arg", 2 * Len(heap) + 2)
+FreshLaw == phase = 1 => AllFresh(pred.cells, pred.v, Len(heap), 2 * Len(heap) + 2)
+SpecUntouched == phase = 1 => SubSeq(pred.cells, 1, Len(heap)) = heap
 ====================================================================================
